@@ -127,6 +127,15 @@ theorem service_account_is_not_admin (a : Bool) (c : Caller) (hd : c.developer =
 theorem admin_only (d a : Bool) (h : (d || a) = false) : adminOnly d a = some { ok := false, changed := false } := by
   simp [adminOnly, h]
 
+/-- DATA LEVEL: every row that passes the WHERE clause of a job listing belongs to the requested batch, whatever state term the
+query carries. -/
+theorem listed_jobs_belong_to_batch (rowBatch reqBatch rowState : Nat) (states : List Nat)
+    (h : whereJobs rowBatch reqBatch rowState states = true) : rowBatch = reqBatch := by
+  simp [whereJobs] at h; exact h.1
+-- without the parentheses around a multi-state term (`done` = cancelled | error | failed | success) a foreign batch's row passes
+example : whereJobsBare 4 10 2 [1, 2, 3] = true := by decide
+example : whereJobs 4 10 2 [1, 2, 3] = false := by decide
+
 /-! ## owner-only mutators -/
 
 /-- Every owner-class route starts with the owner-filtered SELECT (`… user = %s`), over the current table. -/
